@@ -85,6 +85,8 @@ def run(ctx, res):
         # statements that store: a block set with an attribute target (fixed in /repo cf81214), a namespace built from the object
         ("block-set-attr", "{%% set x.%(m)s %%}v{%% endset %%}"),
         ("set-attr", "{%% set x.%(m)s = 1 %%}"),
+        ("tuple-set-mixed", "{%% set ns = namespace() %%}{%% set ns.a, x.%(m)s = 1, 2 %%}"),
+        ("tuple-set-mixed-rev", "{%% set ns = namespace() %%}{%% set x.%(m)s, ns.a, q = 1, 2, 3 %%}"),
         ("namespace-of", "{%% set ns = namespace(x) %%}{%% set ns.%(m)s = 1 %%}{%% set ns.k2 %%}v{%% endset %%}"),
         ("namespace-of-kw", "{%% set ns = namespace(x, q=1) %%}{%% set ns.%(m)s = 1 %%}"),
     ]
@@ -100,7 +102,7 @@ def run(ctx, res):
                     before, ybefore = copy.deepcopy(x), copy.deepcopy(data["y"])
                     if rname == "global-dict" and tn != "dict":
                         continue
-                    if rname in ("block-set-attr", "set-attr", "namespace-of", "namespace-of-kw") and a != argsrc[0]:
+                    if rname in ("block-set-attr", "set-attr", "namespace-of", "namespace-of-kw", "tuple-set-mixed", "tuple-set-mixed-rev") and a != argsrc[0]:
                         continue            # these routes take no call arguments: once per (type, name)
                     src = rt % {"m": m, "a": a, "xa": "x, " + a if a else "x"}
                     out, err = render(e, src, {"x": x, "y": data["y"], "T": type(x)}, is_async)
